@@ -18,7 +18,7 @@ PROP = 'C13'
 ENGINE = {'live_lru': True}       # S14: CrossHair's patch that bypasses functools.lru_cache while tracing is removed
 MANIFEST = dict(
     text="Inductive-step symbolic check on the real dispatchers: for every request skeleton (object members over the kind alphabet with a symbolic method name that the solver resolves to a plain function, a context-taking function, a class-based view method, "
-         "a JSON-schema validated method or no method; 0..2-element batches) one dispatch with a FRESH context object must leave the fingerprint of all library-held state unchanged (registry keys and Method identities, middleware chain, handler table, "
+         "a JSON-schema validated method or no method; 0..2-element batches) one dispatch with a FRESH context object must leave the fingerprint of all library-held state unchanged (a deep structural snapshot of everything reachable from the dispatcher object - registry, Method objects and their attributes, middleware chain, handler table -, the "
          "error-class registry, every module-level mutable object and every functools.lru_cache of the imported pjrpc modules incl. their sizes -- found by a scan that is recomputed on every run), a symbolic probe request dispatched afterwards must be answered exactly as on a fresh dispatcher, "
          "and (on each path's concrete witness, in the plain interpreter) the context object must be collectable after gc. Unchanged fingerprint per step => histories of any length, N in {1, 10, 1000} included, by induction.",
     ref='5 C13',
@@ -26,7 +26,7 @@ MANIFEST = dict(
          "'Collectable by the GC' is decided on the concrete witness of every path (weakref + gc.collect), not by the solver. S14: lru_cache live under tracing (cache keys in pjrpc are concrete objects).",
 )
 BOUNDS = {
-    'quick': {'step requests': 'jsonrpc in {str, symbolic other} x id in {absent,int,bool} x method symbolic str x params in {absent,int,[],[int],{"a":int}}; batches of 0..2 elements over 6 element kinds', 'probe': 'method symbolic, params in {[int], {"x": int}}',
+    'quick': {'step requests': 'jsonrpc in {str, symbolic other} x id in {absent,int,str,bool} x method symbolic str (7 registered methods incl. one with defaulted positional-only parameters) x params in K; batches of 0..2 elements over 7 element kinds', 'probe': 'after a concrete first request to each method kind: method symbolic (unbounded string), params in {[int], [int,2,3], {"x": int}}',
               'dispatchers': 'sync, async'},
     'thorough': {'step requests': 'jsonrpc in K x id in K x method in {absent,int,str} x params in K', 'probe': 'as quick', 'dispatchers': 'sync, async'},
 }
@@ -34,7 +34,7 @@ STUBS = ['S1', 'S4 (+ jsonschema.ValidationError.__str__ constant)', 'S5', 'S13'
 OUTSIDE = ['threads', 'PydanticValidator', 'methods that keep state of their own']
 ASSUMPTIONS = []
 BUDGET = {'quick': 40.0, 'thorough': 120.0}
-ELS = ('echo', 'ctxm', 'vm', 'js', 'nosuch', 'notif_vm')
+ELS = ('echo', 'ctxm', 'vm', 'js', 'nosuch', 'notif_vm', 'pos')
 
 
 def setup():
@@ -49,14 +49,16 @@ def obligations(tier):
     obs = []
     for disp in ('sync', 'async'):
         if tier == 'quick':
-            prod = it.product(('str',), ('absent', 'int', 'bool'), ('str',), ('absent', 'int', 'list0', 'list1', 'dict1'))
+            prod = it.product(('str',), ('absent', 'int', 'str', 'bool'), ('str',), KINDS)
         else:
             prod = it.product(KINDS, KINDS, ('absent', 'int', 'str'), KINDS)
         for kj, ki, km, kp in prod:
             obs.append({'h': 'step', 'disp': disp, 'k': [kj, ki, km, kp]})
+        for first in ('echo', 'ctxm', 'vm', 'js', 'pos', 'nosuch'):
+            obs.append({'h': 'probe', 'disp': disp, 'first': first, '_budget': 90.0})
         for n in (0, 1, 2):
             for combo in it.product(ELS, repeat=n):
-                obs.append({'h': 'step_batch', 'disp': disp, 'els': list(combo)})
+                obs.append({'h': 'step_batch', 'disp': disp, 'els': list(combo), '_budget': 90.0})
     return obs
 
 
@@ -132,6 +134,13 @@ def _build_dispatcher(env, wire, disp):
     cls = pjrpc.server.AsyncDispatcher if is_async else pjrpc.server.Dispatcher
     d = cls(middlewares=[mw_async if is_async else mw_sync], error_handlers={None: [eh_async if is_async else eh_sync]},
             **wire.kwargs())
+    if is_async:
+        async def pos(a, b=10, c=100, /):
+            return [a, b, c]
+    else:
+        def pos(a, b=10, c=100, /):
+            return [a, b, c]
+    d.add(pos, name='pos')
     d.add(echo, name='echo')
     d.add(ctxm, name='ctxm', context='ctx')
     d.add(js, name='js')
@@ -178,10 +187,37 @@ class _Id:
         return id(self.o)
 
 
+def _deep(obj, depth=0, seen=None):
+    """Structural snapshot of everything reachable from `obj` (containers: type, size, children; objects with a
+    __dict__: their attributes; leaves: identity tokens).  A dispatch that mutates ANY container hanging off the
+    dispatcher - e.g. a list cached on a Method object - changes it."""
+    import types
+    if seen is None:
+        seen = set()
+    if obj is None or isinstance(obj, (bool, int, float, str, bytes)):
+        return obj
+    if depth > 6 or id(obj) in seen:
+        return _Id(obj)
+    if isinstance(obj, (types.FunctionType, types.BuiltinFunctionType, types.MethodType, type, types.ModuleType)):
+        return _Id(obj)
+    seen = seen | {id(obj)}
+    if isinstance(obj, dict):
+        return ('dict', len(obj), [(_deep(k, depth + 1, seen), _deep(v, depth + 1, seen)) for k, v in obj.items()])
+    if isinstance(obj, (list, tuple, set, frozenset)):
+        return (type(obj).__name__, len(obj), [_deep(x, depth + 1, seen) for x in obj])
+    if hasattr(obj, 'func') and hasattr(obj, 'keywords') and hasattr(obj, 'args'):      # functools.partial
+        return ('partial', _Id(obj.func), _deep(obj.args, depth + 1, seen), _deep(obj.keywords, depth + 1, seen))
+    d = getattr(obj, '__dict__', None)
+    if isinstance(d, dict):
+        return ('object', _Id(obj), [(k, _deep(v, depth + 1, seen)) for k, v in sorted(d.items())])
+    return _Id(obj)
+
+
 def _fingerprint(d):
     import pjrpc
     caches, globs = _caches_and_globals()
     fp = {
+        'deep': _deep(d),
         'registry': [(k, _Id(v)) for k, v in d.registry.items()],
         'middlewares': [_Id(m) for m in d._middlewares],
         'dispatcher_attrs': sorted(((k, _Id(v)) for k, v in vars(d).items()), key=lambda t: t[0]),
@@ -205,7 +241,7 @@ def _dispatch(d, disp, text, ctx):
     return out
 
 
-def _step(env, ob, make_doc):
+def _step(env, ob, make_doc, probe=False):
     import gc
     import weakref
     wire = Wire(env)
@@ -214,7 +250,7 @@ def _step(env, ob, make_doc):
         fresh = _build_dispatcher(env, wire, ob['disp'])
         # warm-up (set-up, concrete): one dispatch per method kind so that legitimately cached per-method data exists
         for dd in (d, fresh):
-            for m, p in (('echo', [1]), ('ctxm', [1]), ('vm', [1]), ('js', {'a': 1}), ('js', {'a': 'x'}), ('nosuch', [])):
+            for m, p in (('echo', [1]), ('ctxm', [1]), ('vm', [1]), ('js', {'a': 1}), ('js', {'a': 'x'}), ('nosuch', []), ('pos', [1, 2, 3])):
                 _dispatch(dd, ob['disp'], wire.encode({'jsonrpc': '2.0', 'id': 1, 'method': m, 'params': p}), Ctx())
         before = _fingerprint(d)
     doc = make_doc()
@@ -232,9 +268,19 @@ def _step(env, ob, make_doc):
             grown = [k for k in before['caches'] if before['caches'][k] != after['caches'].get(k)]
             raise Violation('cache-grew:' + ','.join(grown), doc)
         raise Violation('library-state-changed:' + ','.join(changed), doc)
+    if not probe:
+        if env.real:
+            import gc as _gc
+            import weakref as _wr
+            ref = _wr.ref(ctx)
+            del ctx, out
+            _gc.collect()
+            if ref() is not None:
+                raise Violation('context-object-retained-after-dispatch', doc)
+        return ['step-ok']
     # probe: answered as on a fresh dispatcher
     pm = env.str('probe.method')
-    pp = {'x': env.int('probe.x')} if env.bool('probe.named') else [env.int('probe.x')]
+    pp = {'x': env.int('probe.x')} if env.bool('probe.named') else ([env.int('probe.x')] if env.bool('probe.short') else [env.int('probe.x'), 2, 3])
     pdoc = {'jsonrpc': '2.0', 'id': env.int('probe.id'), 'method': pm, 'params': pp}
     try:
         a = _dispatch(d, ob['disp'], wire.encode(pdoc), Ctx())
@@ -267,6 +313,18 @@ def h_step(ob):
             jv = '2.0' if kj == 'str' and not env.bool('badversion') else build(env, kj, 'jsonrpc')
             return obj(jsonrpc=jv, id=build(env, ki, 'id', 2), method=build(env, km, 'method'), params=build(env, kp, 'params'))
         return _step(env, ob, make_doc)
+
+    return run
+
+
+def h_probe(ob):
+    """A concrete first request (one per registered method kind), then a SYMBOLIC probe compared with a fresh dispatcher."""
+    def run(env):
+        def make_doc():
+            m = ob['first']
+            params = {'a': 1} if m == 'js' else ([env.int('first.x')] if m != 'nosuch' else [])
+            return {'jsonrpc': '2.0', 'id': env.int('first.id'), 'method': m, 'params': params}
+        return _step(env, ob, make_doc, probe=True)
 
     return run
 
